@@ -2,6 +2,6 @@ SPECIFICATION Spec
 CONSTANTS MaxLen = 6
           Fuel = 8
           Variant = "current"
-INVARIANTS NoBad PsLive ChainLive AllClosedAtEnd LoopsEnclose LevelIsDepth
+INVARIANTS ExportPath
 CHECK_DEADLOCK FALSE
 VIEW View
